@@ -386,6 +386,78 @@ def _reach_skipping_edge(fn, start, edge):
 _PASS_ALL = None
 
 
+# ---- iterating an Option --------------------------------------------------------------------------------------------------
+# An Option used as an iterator (`for x in opt`, `opt.into_iter().flatten()`, `opt.iter().flat_map(..)`) yields its payload
+# once when it is Some and nothing when it is None.
+def option_alternatives(v, depth=0):
+    """[payload of every Some alternative] when v is, in every alternative, a literal Option (`None` / `Some(x)`); else None"""
+    v = _strip(v)
+    if depth > 6:
+        return None
+    if v[0] == 'phi':
+        out = []
+        for x in v[1]:
+            r = option_alternatives(x, depth + 1)
+            if r is None:
+                return None
+            out.extend(r)
+        return out
+    if v[0] == 'agg' and v[1] == 'std::option::Option':
+        if v[2] == 'None':
+            return []
+        if v[2] == 'Some' and len(v[3]) == 1:
+            return [v[3][0][1]]
+    return None
+
+
+def listing_payload(x):
+    """x is the directory listing itself (`fs::read_dir(p)?`, error-side adapters only): the one kind of Option payload whose
+    `None` alternative is policed (absent_listing_problems: None only where the listing failed).  For any other Option the
+    condition that selects None / Some is not visible in a phi value, so it is not read as "its payload when there is one"."""
+    for _ in range(8):
+        x = _strip(x)
+        if x[0] == 'call' and x[2] and x[1] in ('std::ops::Try::branch', 'std::result::Result::<T, E>::map_err', 'std::result::Result::<T, E>::inspect_err'):
+            x = x[2][0]
+            continue
+        break
+    return x[0] == 'call' and x[1] == 'std::fs::read_dir'
+
+
+def option_iter_norm(v, depth=0):
+    """v with every `unwrap(next(<iterator over a literal Option>))` replaced by that Option's payload; None when v contains
+    the element of an iteration over a literal `None` (there is no such element: the value is never computed)"""
+    if not isinstance(v, tuple) or not v or v[0] in LEAF or depth > 60:
+        return v
+    parts = []
+    for x in v:
+        if isinstance(x, tuple):
+            x = option_iter_norm(x, depth + 1)
+            if x is None:
+                return None
+        parts.append(x)
+    out = tuple(parts)
+    if out[0] == 'unwrap' and len(out) == 2 and isinstance(out[1], tuple) and out[1] and out[1][0] == 'call' and out[1][1] == 'std::iter::Iterator::next' \
+            and len(out[1][2]) == 1:
+        src = _iter_source(out[1][2][0])
+        if src[0] == 'agg' and src[1] == 'std::option::Option':
+            if src[2] == 'None':
+                return None
+            if src[2] == 'Some' and len(src[3]) == 1 and listing_payload(src[3][0][1]):
+                return src[3][0][1]
+        if src[0] == 'phi':
+            # None | Some(x): whenever there is an element, it is x
+            somes = option_alternatives(src)
+            if somes is not None and all(listing_payload(x) for x in somes):
+                uniq = []
+                for x in somes:
+                    if x not in uniq:
+                        uniq.append(x)
+                if not uniq:
+                    return None
+                return uniq[0] if len(uniq) == 1 else ('phi', tuple(uniq))
+    return out
+
+
 def pipeline_problems(v, depth=0):
     """adapters between an iterated expression and its source that make the consumer see fewer elements than the source
     yields: [description]; adapters that keep every element (map / inspect / enumerate / rev / collect / by_ref ..) pass"""
@@ -412,6 +484,13 @@ def pipeline_problems(v, depth=0):
             v = v[2][0]
         elif name in _PASS_ALL or (iters._is_source(name) and name.endswith(iters.SAME_ELEMS)):
             v = v[2][0]
+        elif name == iters.IT + 'flatten' and len(v[2]) == 1 and option_alternatives(_iter_source(v[2][0])) is not None \
+                and all(listing_payload(x) for x in option_alternatives(_iter_source(v[2][0]))):
+            # flattening an Option<iterator> (`maybe_listing.into_iter().flatten()`): every element of the listing that is
+            # there; an absent listing has no entries to look at (whether it may be absent is the listing-tolerance obligation)
+            for x in option_alternatives(_iter_source(v[2][0])):
+                out.extend(pipeline_problems(x, depth))
+            return out
         elif name in iters.TRUNCATING:
             out.append('%s stops / skips by position: later entries are never looked at' % name.rsplit('::', 1)[-1])
             v = v[2][0]
@@ -445,7 +524,11 @@ def exhaustive_problems(E, e):
                     problems.append('%s: the loop can be left towards a success return (bb%d) without being exhausted'
                                     % (g.path.split('::')[-1], st.bb))
                     break
-            problems.extend(pipeline_problems(L.collection))
+            pp = pipeline_problems(L.collection)
+            if pp:
+                # private helpers between the listing and the loop are transparent (`for e in list_dir(p)?.into_iter().flatten()`)
+                pp = pipeline_problems(norm(sl, sl.inline_deep(L.collection)))
+            problems.extend(pp)
     for l in e.chain:
         if not isinstance(l, Link):
             continue
@@ -456,7 +539,10 @@ def exhaustive_problems(E, e):
         if d in iters.CONSUME_EACH or d in (iters.IT + 'fold', iters.IT + 'try_fold'):
             if E._short_circuits(c.fn, c):
                 problems.append('%s stops at the first failure and that failure can still end in success' % d.rsplit('::', 1)[-1])
-            problems.extend(pipeline_problems(sl.operand(c.fn, c.args[0])))
+            pp = pipeline_problems(sl.operand(c.fn, c.args[0]))
+            if pp:
+                pp = pipeline_problems(norm(sl, sl.inline_deep(sl.operand(c.fn, c.args[0]))))
+            problems.extend(pp)
         else:
             return None     # the effect runs inside a lazy adapter's closure: who pulls it is not modelled
     return problems
@@ -533,6 +619,19 @@ def success_root(v):
     return v
 
 
+def _receiver_root(v):
+    """like success_root, but without looking through payload projections: the call whose own Ok / Some / Continue-ness the
+    decision is about (`r?`, `r.map(..)`, `r.and_then(..)` are Ok only if r is) — a decision on a *payload* of r (`(r as Err).0
+    is Some`) is not one on r"""
+    for _ in range(24):
+        v = _strip(v)
+        if v[0] == 'call' and v[2] and v[1] in _PEEL_RECV:
+            v = v[2][0]
+            continue
+        break
+    return v
+
+
 def extra_guards(sl, prog, guards, path_ok):
     """guards (format of effects.guards_of) of the insert that are neither "an input read succeeded / is present" nor a
     file-type test that `is_file` of the entry implies: [(description)] — each one makes the reader skip regular files"""
@@ -541,8 +640,13 @@ def extra_guards(sl, prog, guards, path_ok):
     for cd, views, subj in guards:
         if cd.kind == 'variant':
             root = success_root(subj if subj is not None else cd.value)
-            ok = (cd.enum or '').rsplit('::', 1)[-1] in ('Result', 'Option', 'ControlFlow') and cd.outcome <= _SUCCESS and \
-                root[0] == 'call' and (root[1] in _INPUT_ROOTS or (root[1] in prog.fns and prog.fns[root[1]].crate.startswith('libcnb')))
+            is_input = lambda r_: r_[0] == 'call' and (r_[1] in _INPUT_ROOTS or (r_[1] in prog.fns and prog.fns[r_[1]].crate.startswith('libcnb')))
+            ok = (cd.enum or '').rsplit('::', 1)[-1] in ('Result', 'Option', 'ControlFlow') and cd.outcome <= _SUCCESS and is_input(root)
+            if not ok and root[0] in ('phi', 'agg') and cd.outcome == frozenset({'Some'}):
+                # `if let Some(entries) = maybe_listing` with maybe_listing = None | Some(read_dir(..)?): "the input read that
+                # the Some alternative holds is there" (where it may be None: absent_listing_problems / listing-tolerance)
+                somes = option_alternatives(root)
+                ok = bool(somes) and all(listing_payload(x) for x in somes)
             if not ok:
                 out.append('%s is %s' % (vstr(subj if subj is not None else cd.value)[:90], '|'.join(sorted(cd.outcome))))
         elif cd.kind == 'bool':
@@ -738,8 +842,11 @@ def edge_cond(fn, sb, tb, sl):
     return None
 
 
-def tolerated_without_not_found(fn, sl, start, success_bbs, pred=None, is_about=None):
-    """blocks of success_bbs reachable from `start` (the arm where a read has failed) without passing a decision that says
+def tolerated_without_not_found(fn, sl, start, success_bbs, pred=None, is_about=None, failed=None, cuts=None):
+    """`failed`: the call value (with site, executed once) of the read known to have failed at `start` — edges saying that same
+    read succeeded are not taken; `cuts`: list that receives the (switch bb, target bb) edges where the walk stopped because the
+    error is known to be NotFound beyond them.
+    Blocks of success_bbs reachable from `start` (the arm where a read has failed) without passing a decision that says
     "the error's kind is exactly NotFound": every such block is a success under some other error kind.  Decisions are the
     edges of switches: `kind() == / != NotFound`, `matches!(kind(), NotFound)`, `match kind() { NotFound => .. }`, the
     workspace's not-found predicate (C06_helpers.not_found_test says `holds`); `is_about(error value)` restricts the
@@ -761,7 +868,15 @@ def tolerated_without_not_found(fn, sl, start, success_bbs, pred=None, is_about=
                 cd = edge_cond(fn, b, tb, sl)
                 nf = not_found_test(cd.views() if cd is not None and cd.kind == 'bool' else [], cd, pred) if cd is not None else []
                 if any(holds is True and (is_about is None or is_about(ev)) for ev, holds in nf):
+                    if cuts is not None:
+                        cuts.append((b, tb))
                     continue     # beyond this edge the error is known to be NotFound: tolerated by the property
+                # `failed` (a call value with its site, executed once): the read that is known to have failed where we
+                # started; an edge that says "that same read succeeded" (`other?` in a catch-all arm after the
+                # `Err(e) if not_found(e)` arm) cannot be taken
+                if failed is not None and cd is not None and cd.kind == 'variant' and cd.subject is not None and cd.outcome <= _SUCCESS \
+                        and _receiver_root(cd.subject) == failed:
+                    continue
                 work.append(tb)
         else:
             work.extend(fn.succs(b))
@@ -1020,6 +1135,31 @@ def read_to_string_equiv(prog, sl, g):
     if len(bufs) != 1:
         return None
     s = bufs.pop()
+    br = buffer_read(prog, sl, g, s)
+    if br is None:
+        return None
+    c, pth = br
+    # every other use of the buffer is the move into the returned Ok (or its drop on a failure path)
+    for bi, kind, idx, how, pl in g.uses_of(s):
+        if kind == 'drop' or (kind == 'stmt' and how == 'refmut'):
+            continue
+        if kind == 'stmt' and how in ('m', 'c') and not list(pl[1:]) and g.blocks[bi]['s'][idx][2]['r'] == 'use':
+            continue
+        return None
+    p = same_string(_strip(pth))
+    if p[0] != 'param' or p[1] != g.path:
+        return None
+    # every success comes after the read
+    if not all(g.dominates(c.bb, st.bb) for st in sites):
+        return None
+    return p[2]
+
+
+def buffer_read(prog, sl, g, s):
+    """(read Call, path value P) when local `s` of g is a String that starts empty and whose only mutable use is to be filled by
+    `File::open(P)?.read_to_string(&mut s)` with the failures of both the open and the read handed on — i.e. from the read
+    call on (where it succeeded) s holds fs::read_to_string(P)?; else None"""
+    from .lib.discard import result_fates, verdict
     ds = g.whole_defs(s)
     if len(ds) != 1 or ds[0][0] != 'call' or ds[0][3].indirect or ds[0][3].name not in _NEW_STRING or g.partial_defs(s):
         return None
@@ -1029,13 +1169,6 @@ def read_to_string_equiv(prog, sl, g):
     c, ai = sinks[0]
     if c.indirect or c.decl != 'std::io::Read::read_to_string' or ai != 1 or len(c.args) != 2:
         return None
-    # every other use of the buffer is the move into the returned Ok (or its drop on a failure path)
-    for bi, kind, idx, how, pl in g.uses_of(s):
-        if kind == 'drop' or (kind == 'stmt' and how == 'refmut'):
-            continue
-        if kind == 'stmt' and how in ('m', 'c') and not list(pl[1:]) and g.blocks[bi]['s'][idx][2]['r'] == 'use':
-            continue
-        return None
     # the reader is the file at P, freshly opened for reading, the failure to open it propagated
     recv = sl.operand(g, c.args[0])
     opened = None
@@ -1044,17 +1177,31 @@ def read_to_string_equiv(prog, sl, g):
             opened = _strip_adapters(x)
             break
     r0 = _strip_adapters(recv)
-    while r0[0] == 'ref' and len(r0) > 1 and isinstance(r0[1], tuple):
-        r0 = _strip_adapters(r0[1])
+    for _ in range(6):
+        if r0[0] == 'ref' and len(r0) > 1 and isinstance(r0[1], tuple):
+            r0 = _strip_adapters(r0[1])
+        elif r0[0] == 'call' and len(r0[2]) == 1 and r0[1].startswith('std::io::BufReader') and r0[1].endswith('::new'):
+            r0 = _strip_adapters(r0[2][0])      # a buffered reader around the file reads the same bytes
+        else:
+            break
     if opened is None or r0 != opened or len(opened[2]) != 1:
         return None
-    p = same_string(_strip(opened[2][0]))
-    if p[0] != 'param' or p[1] != g.path:
+    # the read's failure is returned; the buffer is filled once (not in a loop that could append a second file)
+    if verdict(result_fates(prog, g, c)) != 'ok' or g.in_loop(c.bb):
         return None
-    # the read's failure is returned, and every success comes after the read
-    if verdict(result_fates(prog, g, c)) != 'ok' or not all(g.dominates(c.bb, st.bb) for st in sites):
-        return None
-    return p[2]
+    return c, opened[2][0]
+
+
+def inline_buffer_reads(prog, sl, g):
+    """{creation site of a String buffer in g: (read Call, P)} for the buffers of g that are fs::read_to_string(P) written out
+    in place (buffer_read): a use of such a buffer that the read call dominates sees the text of the file at P"""
+    out = {}
+    for c in g.calls:
+        if not c.indirect and c.name in _NEW_STRING and c.dest and len(c.dest) == 1:
+            br = buffer_read(prog, sl, g, c.dest[0])
+            if br is not None:
+                out[(g.path, c.bb)] = br
+    return out
 
 
 # ---- collect first, insert afterwards -------------------------------------------------------------------------------------
@@ -1476,3 +1623,65 @@ def name_by_role(prog, sl, values, builds, baseline_path):
             cands.append(path)
     if len(cands) == 1:
         names[cands[0]] = baseline_path
+
+
+# ---- an optional listing is absent only where the listing failed --------------------------------------------------------------
+def absent_listing_problems(E, fns, is_listing):
+    """The listing may be carried as an Option (`None` for the tolerated missing directory).  Iterating / matching that Option is
+    read as "the listing, when there is one" (option_iter_norm, option_alternatives), so the `None` must not be a way to drop a
+    listing that *was* read: every literal `None` written to a local of type Option<..ReadDir..> in `fns` has to sit on a path
+    where the listing (is_listing(root call value)) has failed — which error kinds may end there is listing-tolerance's part.
+    -> ([problem], undecided?)"""
+    from .lib.value import vstr
+    sl = E.slicer
+    probs, undecided = [], False
+    for g in fns:
+        for l in range(len(g.locals)):
+            ty = g.locals[l]['ty']
+            if not (ty.startswith('std::option::Option<') and 'std::fs::ReadDir' in ty):
+                continue
+            for d in g.whole_defs(l):
+                if not (d[0] == 'stmt' and d[3]['r'] == 'agg' and d[3].get('variant') == 'None'):
+                    continue
+                ok = any(cd.kind == 'variant' and cd.subject is not None and cd.outcome and cd.outcome <= frozenset({'Err', 'Break'})
+                         and is_listing(success_root(cd.subject)) for cd in conditions_ctx(E.prog, g, d[1], sl))
+                if not ok and g.kind == 'Closure':
+                    cb = closure_binding(E, g)
+                    pb = cb[1].get((g.path, 1)) if cb else None
+                    if pb is not None and pb[0] == 'unwrap_err' and is_listing(success_root(pb[1])):
+                        ok = True
+                    elif pb is None:
+                        undecided = True
+                        continue
+                if not ok:
+                    probs.append('%s: the listing is replaced by None (%s:%s) on a path where it has not failed'
+                                 % (g.path.split('::')[-1], g.file, (g.blocks[d[1]]['s'][d[2]] + ['?'] * 4)[3] if isinstance(g.blocks[d[1]]['s'][d[2]], list) else '?'))
+    return probs, undecided
+
+
+def buffer_fillers(g, s):
+    """the calls a mutable borrow of local s is handed to ([(Call, argument index)]; None: used in a way that is not followed)"""
+    return mut_borrow_sinks(g, s)
+
+
+def io_read_to_string_path(v):
+    """P when v is `std::io::read_to_string(File::open(P)?)` (also through a BufReader): the same read as fs::read_to_string(P)
+    with the failure to open the file handed on; else None"""
+    v = _strip(v)
+    if not (v[0] == 'call' and v[1] == 'std::io::read_to_string' and len(v[2]) == 1):
+        return None
+    r = v[2][0]
+    for _ in range(6):
+        if r[0] == 'updated':
+            r = r[1]
+        elif r[0] == 'ref' and len(r) > 1 and isinstance(r[1], tuple):
+            r = r[1]
+        elif r[0] == 'call' and len(r[2]) == 1 and r[1].startswith('std::io::BufReader') and r[1].endswith('::new'):
+            r = r[2][0]
+        else:
+            break
+    if r[0] == 'unwrap':
+        o = _strip_adapters(r)
+        if o[0] == 'call' and o[1] == 'std::fs::File::open' and len(o[2]) == 1:
+            return o[2][0]
+    return None
